@@ -903,6 +903,31 @@ def store10(ctx) -> List[Ob]:
                 out.append(bad("STORE-10", fn.qualname, key, where, f"position(s) {sorted(missing)} of {X} are never renamed"))
             else:
                 out.append(ok("STORE-10", fn.qualname, key, where, f"every position {sorted(handled)} renamed by an independent test"))
+    # the same rename written with list.index(): only the first occurrence is replaced
+    # (the front end does produce blocks whose two successors are the same block)
+    for fn in prog.functions:
+        if not fn.module.name.endswith("ast_transforms"):
+            continue
+        for st in A.walk_no_nested(fn.node):
+            if not (isinstance(st, ast.Assign) and len(st.targets) == 1 and isinstance(st.targets[0], ast.Subscript)):
+                continue
+            t = st.targets[0]
+            sl = t.slice
+            if isinstance(sl, ast.Slice) and sl.lower is None and sl.upper is None and "jump_targets" in A.unparse(t.value) and isinstance(st.value, ast.ListComp) and len(st.value.generators) == 1:
+                g = st.value.generators[0]
+                e = st.value.elt
+                if A.unparse(g.iter) == A.unparse(t.value) and not g.ifs and isinstance(e, ast.IfExp) and isinstance(e.test, ast.Compare) and isinstance(e.test.ops[0], ast.Eq) and A.unparse(e.test.left) == A.unparse(g.target) and A.unparse(e.orelse) == A.unparse(g.target):
+                    out.append(ok("STORE-10", fn.qualname, "element-wise rename of " + A.alpha_key(t.value), ctx.where(fn, st), "every occurrence is renamed, positions kept"))
+                continue
+            if isinstance(sl, ast.Call) and isinstance(sl.func, ast.Attribute) and sl.func.attr == "index" and A.unparse(sl.func.value) == A.unparse(t.value) and "jump_targets" in A.unparse(t.value) and sl.args:
+                X = A.unparse(t.value)
+                old = A.unparse(sl.args[0])
+                key = "rename through index() of " + A.alpha_key(t.value)
+                looped = any(isinstance(a, ast.While) and A.unparse(a.test) == f"{old} in {X}" for a in A.ancestors(st))
+                if looped:
+                    out.append(ok("STORE-10", fn.qualname, key, ctx.where(fn, st), f"repeated while {old} in {X}: every occurrence is renamed"))
+                else:
+                    out.append(bad("STORE-10", fn.qualname, key, ctx.where(fn, st), f"'{A.unparse(st)[:60]}' renames only the first occurrence of {old}: a block whose two successors are both {old} (if/else arms that are both empty) keeps a successor that no longer exists"))
     return out
 
 
@@ -1092,6 +1117,30 @@ def store8(ctx) -> List[Ob]:
         out.append(unresolved("STORE-8", er.qualname, key, where, "no rename loop found for the entries"))
     else:
         out.append(bad("STORE-8", er.qualname, key, where, f"entries are renamed {sorted(olds)} -> {sorted(news)}, expected {A.unparse(kws['header'])} -> {A.unparse(nm)}"))
+    # (v) callers: the parent handed over is the very region whose sub-graph is edited
+    erp = [p.arg for p in er.params]
+    for fn in prog.functions:
+        for c in A.walk_no_nested(fn.node):
+            if not (isinstance(c, ast.Call) and (A.dotted(c.func) or "").split(".")[-1] == "extract_region" and fn is not er):
+                continue
+            args = {erp[i]: a for i, a in enumerate(c.args) if i < len(erp)}
+            args.update({k.arg: k.value for k in c.keywords if k.arg})
+            g, par = args.get(erp[0]), args.get(erp[3]) if len(erp) > 3 else None
+            key = "caller passes the region it restructures: " + A.alpha_key(c)[:60]
+            wherec = ctx.where(fn, c)
+            if g is None or par is None:
+                out.append(unresolved("STORE-8", fn.qualname, key, wherec, "cannot see the graph / parent arguments of extract_region"))
+                continue
+            gsrc = g
+            if isinstance(g, ast.Name):
+                ds = [d for d in ctx.cfg(fn).reaching_defs(g) if d.stmt is not None]
+                if len(ds) == 1 and isinstance(ds[0].stmt, (ast.Assign, ast.AnnAssign)) and ds[0].stmt.value is not None:
+                    gsrc = ds[0].stmt.value
+            fparams = {p.arg for p in fn.params}
+            if isinstance(par, ast.Name) and par.id in fparams and A.unparse(gsrc) == f"{par.id}.subregion":
+                out.append(ok("STORE-8", fn.qualname, key, wherec, f"graph = {par.id}.subregion, parent = {par.id} (the object the caller was given)"))
+            else:
+                out.append(bad("STORE-8", fn.qualname, key, wherec, f"extract_region is given the graph {A.unparse(gsrc)[:40]} but the parent {A.unparse(par)[:40]}: header / exiting replacement must be applied to the region object whose sub-graph is edited (a pointer read back from the graph can name a stale copy made by dataclasses.replace)"))
     return out
 
 
